@@ -656,11 +656,15 @@ impl MachineState {
         seen_set: &mut IndexSet<HeapCellValue, S>,
         value: HeapCellValue,
     ) {
-        let iter = eager_stackful_preorder_iter(&mut self.heap, value);
+        let mut iter = eager_stackful_preorder_iter(&mut self.heap, value);
 
-        for term in iter {
+        while let Some(term) = iter.next() {
             if term.is_var() {
-                seen_set.insert(term);
+                // the iterator yields the reference through which it reached the
+                // variable, tagged Var or AttrVar: record the variable's own cell,
+                // or the same variable is taken for two.
+                let h = term.get_value() as usize;
+                seen_set.insert(unmark_cell_bits!(iter.heap[h]));
             }
         }
     }
